@@ -79,8 +79,8 @@ package db
 
 //@ func (*kv).save(kv) (err)
 //@   requires kv != nil && allocated(kv) && kv.dekCipher != nil && !isKEK(kv.dekCipher) && kv.secrets != nil && (forall n string :: has(kv.secrets, n) ==> kv.secrets[n] != nil)
-//@   ensures [C04 save.gen] kv.gen == old(kv.gen) + ite(err == nil, 1, 0)
-//@   ensures [C03,C05 save.sync] err == nil ==> sync(kv)
+//@   ensures [C04,C17 save.gen] kv.gen == old(kv.gen) + ite(err == nil, 1, 0)
+//@   ensures [C03,C04,C05 save.sync] err == nil ==> sync(kv)
 //@   ensures [C05 save.perm0600] err == nil ==> diskPerm(disk, kv.path) == 384
 //@   ensures [C04 save.fail-disk-unchanged] err != nil ==> disk == old(disk)
 //@   ensures [C04,C05 save.only-own-file] diskSameElsewhere(kv.path)
@@ -114,27 +114,27 @@ package db
 
 //@ func (*kv).list(kv) (res)
 //@   requires wf(kv)
-//@   ensures [C01,C02,C14 list.sound] forall j int :: (0 <= j && j < len(res)) ==> has(kv.secrets, res[j])
-//@   ensures [C01,C02,C14 list.complete] forall n string :: has(kv.secrets, n) ==> (exists j int :: 0 <= j && j < len(res) && res[j] == n)
+//@   ensures [C01,C02,C03,C14 list.sound] forall j int :: (0 <= j && j < len(res)) ==> has(kv.secrets, res[j])
+//@   ensures [C01,C02,C03,C14 list.complete] forall n string :: has(kv.secrets, n) ==> (exists j int :: 0 <= j && j < len(res) && res[j] == n)
 
 //@ func (*kv).get(kv, name) (sv, err)
 //@   requires wf(kv)
-//@   ensures [C02,C14 get.absent] !has(kv.secrets, name) ==> (sv == nil && err == ErrNotFound)
-//@   ensures [C02,C09,C14,C18 get.present] has(kv.secrets, name) ==> (err == nil && sv != nil && fresh(sv) && allocated(sv) && sv.Version == kv.secrets[name].ActiveVersion &&
+//@   ensures [C02,C03,C14 get.absent] !has(kv.secrets, name) ==> (sv == nil && err == ErrNotFound)
+//@   ensures [C02,C03,C09,C14,C18 get.present] has(kv.secrets, name) ==> (err == nil && sv != nil && fresh(sv) && allocated(sv) && sv.Version == kv.secrets[name].ActiveVersion &&
 //@        bytes(sv.Value) == kv.secrets[name].Versions[kv.secrets[name].ActiveVersion] && (fresh(sv.Value) || len(sv.Value) == 0))
 
 //@ func (*kv).getVersion(kv, name, version) (sv, err)
 //@   requires wf(kv)
-//@   ensures [C02,C14 getVersion.absent] !hasVersion(kv, name, version) ==> (sv == nil && err == ErrNotFound)
-//@   ensures [C02,C14,C18 getVersion.present] hasVersion(kv, name, version) ==> (err == nil && sv != nil && fresh(sv) && allocated(sv) && sv.Version == version &&
+//@   ensures [C02,C03,C14 getVersion.absent] !hasVersion(kv, name, version) ==> (sv == nil && err == ErrNotFound)
+//@   ensures [C02,C03,C14,C18 getVersion.present] hasVersion(kv, name, version) ==> (err == nil && sv != nil && fresh(sv) && allocated(sv) && sv.Version == version &&
 //@        bytes(sv.Value) == kv.secrets[name].Versions[version] && (fresh(sv.Value) || len(sv.Value) == 0))
 
 //@ func (*kv).info(kv, name) (info, err)
 //@   requires wf(kv)
-//@   ensures [C02,C14 info.absent] !has(kv.secrets, name) ==> (info == nil && err == ErrNotFound)
-//@   ensures [C01,C02,C14 info.present] has(kv.secrets, name) ==> (err == nil && info != nil && fresh(info) && allocated(info) && info.Name == name && info.ActiveVersion == kv.secrets[name].ActiveVersion)
-//@   ensures [C01,C02,C14 info.versions-sound] has(kv.secrets, name) ==> (forall j int :: (0 <= j && j < len(info.Versions)) ==> has(kv.secrets[name].Versions, info.Versions[j]))
-//@   ensures [C01,C02,C14 info.versions-complete] has(kv.secrets, name) ==> (forall v api.SecretVersion :: has(kv.secrets[name].Versions, v) ==> (exists j int :: 0 <= j && j < len(info.Versions) && info.Versions[j] == v))
+//@   ensures [C02,C03,C14 info.absent] !has(kv.secrets, name) ==> (info == nil && err == ErrNotFound)
+//@   ensures [C01,C02,C03,C14 info.present] has(kv.secrets, name) ==> (err == nil && info != nil && fresh(info) && allocated(info) && info.Name == name && info.ActiveVersion == kv.secrets[name].ActiveVersion)
+//@   ensures [C01,C02,C03,C14 info.versions-sound] has(kv.secrets, name) ==> (forall j int :: (0 <= j && j < len(info.Versions)) ==> has(kv.secrets[name].Versions, info.Versions[j]))
+//@   ensures [C01,C02,C03,C14 info.versions-complete] has(kv.secrets, name) ==> (forall v api.SecretVersion :: has(kv.secrets[name].Versions, v) ==> (exists j int :: 0 <= j && j < len(info.Versions) && info.Versions[j] == v))
 //@   loop 0
 //@     invariant [sound] forall j int :: (0 <= j && j < len(info.Versions)) ==> visited(info.Versions[j])
 //@     invariant [complete] forall v api.SecretVersion :: visited(v) ==> (exists j int :: 0 <= j && j < len(info.Versions) && info.Versions[j] == v)
@@ -148,30 +148,30 @@ package db
 //@   ensures [C03,C04 put.sync] sync(kv)
 //@   ensures [C04 put.fail-disk-unchanged] err != nil ==> (disk == old(disk) && kv.gen == old(kv.gen))
 //@   ensures [C05 put.kek-unused] kekUses == old(kekUses)
-//@   ensures [C02,C04,C14 put.rollback] err != nil ==> ver == 0 && viewUnchanged(kv)
-//@   ensures [C02,C14 put.others] othersUnchanged(kv, name)
-//@   ensures [C02,C14 put.create] (err == nil && !old(has(kv.secrets, name))) ==>
+//@   ensures [C01,C02,C04,C06,C09,C14 put.rollback] err != nil ==> ver == 0 && viewUnchanged(kv)
+//@   ensures [C01,C02,C06,C09,C14 put.others] othersUnchanged(kv, name)
+//@   ensures [C02,C03,C14 put.create] (err == nil && !old(has(kv.secrets, name))) ==>
 //@        (ver == 1 && has(kv.secrets, name) && kv.secrets[name].ActiveVersion == 1 && kv.secrets[name].LatestVersion == 1 &&
 //@         (forall v api.SecretVersion :: has(kv.secrets[name].Versions, v) == (v == 1)) && kv.secrets[name].Versions[1] == bytes(value))
-//@   ensures [C02,C14 put.dedupe] (err == nil && old(has(kv.secrets, name)) && old(dedupes(kv, name, value))) ==>
+//@   ensures [C02,C03,C14 put.dedupe] (err == nil && old(has(kv.secrets, name)) && old(dedupes(kv, name, value))) ==>
 //@        (ver == old(kv.secrets[name].LatestVersion) && viewUnchanged(kv))
-//@   ensures [C02,C14 put.fresh] (err == nil && old(has(kv.secrets, name)) && !old(dedupes(kv, name, value))) ==>
+//@   ensures [C02,C03,C14 put.fresh] (err == nil && old(has(kv.secrets, name)) && !old(dedupes(kv, name, value))) ==>
 //@        (ver == old(kv.secrets[name].LatestVersion) + 1 && has(kv.secrets, name) && kv.secrets[name].LatestVersion == ver &&
 //@         kv.secrets[name].ActiveVersion == old(kv.secrets[name].ActiveVersion) &&
 //@         (forall v api.SecretVersion :: has(kv.secrets[name].Versions, v) == (old(has(kv.secrets[name].Versions, v)) || v == ver)) &&
 //@         (forall v api.SecretVersion :: (v != ver && old(has(kv.secrets[name].Versions, v))) ==> kv.secrets[name].Versions[v] == old(kv.secrets[name].Versions[v])) &&
 //@         kv.secrets[name].Versions[ver] == bytes(value))
-//@   ensures [C02,C14,C18 put.readback] err == nil ==> (hasVersion(kv, name, ver) && valueOf(kv, name, ver) == bytes(value) && ver != 0)
+//@   ensures [C02,C03,C14,C18 put.readback] err == nil ==> (hasVersion(kv, name, ver) && valueOf(kv, name, ver) == bytes(value) && ver != 0)
 
 //@ func (*kv).setActive(kv, name, version) (err)
 //@   requires wf(kv) && sync(kv) && kv.dekCipher != nil && !isKEK(kv.dekCipher)
 //@   ensures [C01,C02,C04,C06,C09,C14 setActive.wf] wf(kv)
 //@   ensures [C03,C04 setActive.sync] sync(kv)
-//@   ensures [C02,C04,C14 setActive.fail-nochange] err != nil ==> (viewUnchanged(kv) && disk == old(disk) && kv.gen == old(kv.gen))
-//@   ensures [C02,C14 setActive.others] othersUnchanged(kv, name)
-//@   ensures [C02,C14 setActive.rejects] (version == 0 || !old(hasVersion(kv, name, version))) ==> err != nil
-//@   ensures [C02,C08,C14 setActive.notfound] (version != 0 && !old(hasVersion(kv, name, version))) ==> errIs(err, ErrNotFound)
-//@   ensures [C02,C14 setActive.ok] err == nil ==> (has(kv.secrets, name) && kv.secrets[name].ActiveVersion == version && kv.secrets[name].LatestVersion == old(kv.secrets[name].LatestVersion) &&
+//@   ensures [C01,C02,C04,C06,C09,C14 setActive.fail-nochange] err != nil ==> (viewUnchanged(kv) && disk == old(disk) && kv.gen == old(kv.gen))
+//@   ensures [C01,C02,C06,C09,C14 setActive.others] othersUnchanged(kv, name)
+//@   ensures [C02,C03,C14 setActive.rejects] (version == 0 || !old(hasVersion(kv, name, version))) ==> err != nil
+//@   ensures [C02,C03,C08,C14 setActive.notfound] (version != 0 && !old(hasVersion(kv, name, version))) ==> errIs(err, ErrNotFound)
+//@   ensures [C02,C03,C14 setActive.ok] err == nil ==> (has(kv.secrets, name) && kv.secrets[name].ActiveVersion == version && kv.secrets[name].LatestVersion == old(kv.secrets[name].LatestVersion) &&
 //@        (forall v api.SecretVersion :: has(kv.secrets[name].Versions, v) == old(has(kv.secrets[name].Versions, v)) &&
 //@            (has(kv.secrets[name].Versions, v) ==> kv.secrets[name].Versions[v] == old(kv.secrets[name].Versions[v]))))
 //@   ensures [C05 setActive.kek-unused] kekUses == old(kekUses)
@@ -180,11 +180,11 @@ package db
 //@   requires wf(kv) && sync(kv) && kv.dekCipher != nil && !isKEK(kv.dekCipher)
 //@   ensures [C01,C02,C04,C06,C09,C14 deleteVersion.wf] wf(kv)
 //@   ensures [C03,C04 deleteVersion.sync] sync(kv)
-//@   ensures [C02,C04,C14 deleteVersion.fail-nochange] err != nil ==> (viewUnchanged(kv) && disk == old(disk) && kv.gen == old(kv.gen))
-//@   ensures [C02,C14 deleteVersion.others] othersUnchanged(kv, name)
-//@   ensures [C02,C14 deleteVersion.rejects] (version == 0 || !old(hasVersion(kv, name, version)) || version == old(kv.secrets[name].ActiveVersion)) ==> err != nil
-//@   ensures [C02,C08,C14 deleteVersion.notfound] (version != 0 && (!old(has(kv.secrets, name)) || (version != old(kv.secrets[name].ActiveVersion) && !old(hasVersion(kv, name, version))))) ==> errIs(err, ErrNotFound)
-//@   ensures [C02,C14 deleteVersion.ok] err == nil ==> (has(kv.secrets, name) && kv.secrets[name].ActiveVersion == old(kv.secrets[name].ActiveVersion) && kv.secrets[name].LatestVersion == old(kv.secrets[name].LatestVersion) &&
+//@   ensures [C01,C02,C04,C06,C09,C14 deleteVersion.fail-nochange] err != nil ==> (viewUnchanged(kv) && disk == old(disk) && kv.gen == old(kv.gen))
+//@   ensures [C01,C02,C06,C09,C14 deleteVersion.others] othersUnchanged(kv, name)
+//@   ensures [C02,C03,C14 deleteVersion.rejects] (version == 0 || !old(hasVersion(kv, name, version)) || version == old(kv.secrets[name].ActiveVersion)) ==> err != nil
+//@   ensures [C02,C03,C08,C14 deleteVersion.notfound] (version != 0 && (!old(has(kv.secrets, name)) || (version != old(kv.secrets[name].ActiveVersion) && !old(hasVersion(kv, name, version))))) ==> errIs(err, ErrNotFound)
+//@   ensures [C02,C03,C14 deleteVersion.ok] err == nil ==> (has(kv.secrets, name) && kv.secrets[name].ActiveVersion == old(kv.secrets[name].ActiveVersion) && kv.secrets[name].LatestVersion == old(kv.secrets[name].LatestVersion) &&
 //@        !has(kv.secrets[name].Versions, version) &&
 //@        (forall v api.SecretVersion :: v != version ==> (has(kv.secrets[name].Versions, v) == old(has(kv.secrets[name].Versions, v)) &&
 //@            (has(kv.secrets[name].Versions, v) ==> kv.secrets[name].Versions[v] == old(kv.secrets[name].Versions[v])))))
@@ -194,10 +194,10 @@ package db
 //@   requires wf(kv) && sync(kv) && kv.dekCipher != nil && !isKEK(kv.dekCipher)
 //@   ensures [C01,C02,C04,C06,C09,C14 deleteSecret.wf] wf(kv)
 //@   ensures [C03,C04 deleteSecret.sync] sync(kv)
-//@   ensures [C02,C04,C14 deleteSecret.fail-nochange] err != nil ==> (viewUnchanged(kv) && disk == old(disk) && kv.gen == old(kv.gen))
-//@   ensures [C02,C14 deleteSecret.others] othersUnchanged(kv, name)
-//@   ensures [C02,C08,C14 deleteSecret.absent-ok] !old(has(kv.secrets, name)) ==> (err == nil && viewUnchanged(kv) && disk == old(disk) && kv.gen == old(kv.gen))
-//@   ensures [C02,C14 deleteSecret.ok] err == nil ==> !has(kv.secrets, name)
+//@   ensures [C01,C02,C04,C06,C09,C14 deleteSecret.fail-nochange] err != nil ==> (viewUnchanged(kv) && disk == old(disk) && kv.gen == old(kv.gen))
+//@   ensures [C01,C02,C06,C09,C14 deleteSecret.others] othersUnchanged(kv, name)
+//@   ensures [C01,C02,C06,C08,C09,C14 deleteSecret.absent-ok] !old(has(kv.secrets, name)) ==> (err == nil && viewUnchanged(kv) && disk == old(disk) && kv.gen == old(kv.gen))
+//@   ensures [C02,C03,C14 deleteSecret.ok] err == nil ==> !has(kv.secrets, name)
 //@   ensures [C05 deleteSecret.kek-unused] kekUses == old(kekUses)
 
 // ---- DB: access control, audit trail, locking -----------------------------------------
@@ -309,12 +309,12 @@ package db
 //@   ensures [C06 put.trail] auditLog == old(auditLog) || auditLog == snoc(old(auditLog), evC(caller, "put", name, 0, allows(caller.Permissions, "put", name)))
 //@   ensures [C06 put.failclosed] auditLog == old(auditLog) ==> (ver == 0 && err != nil && noEffect(db))
 //@   ensures [C02,C14 put.name-validation] (name == "" || hasPrefix(name, "_internal/")) ==> (ver == 0 && err != nil && noEffect(db))
-//@   ensures [C02,C04,C14 put.fail-nochange] err != nil ==> (ver == 0 && noEffect(db))
-//@   ensures [C02,C14 put.others] othersUnchanged(db.kv, name)
-//@   ensures [C02,C14,C18 put.readback] err == nil ==> (ver != 0 && hasVersion(db.kv, name, ver) && db.kv.secrets[name].Versions[ver] == bytes(value))
-//@   ensures [C02,C14 put.create] (err == nil && !old(has(db.kv.secrets, name))) ==> (ver == 1 && db.kv.secrets[name].ActiveVersion == 1 && db.kv.secrets[name].LatestVersion == 1)
-//@   ensures [C02,C14 put.dedupe] (err == nil && old(has(db.kv.secrets, name)) && old(dedupes(db.kv, name, value))) ==> (ver == old(db.kv.secrets[name].LatestVersion) && viewUnchanged(db.kv))
-//@   ensures [C02,C14 put.fresh] (err == nil && old(has(db.kv.secrets, name)) && !old(dedupes(db.kv, name, value))) ==>
+//@   ensures [C01,C02,C04,C06,C09,C14 put.fail-nochange] err != nil ==> (ver == 0 && noEffect(db))
+//@   ensures [C01,C02,C06,C09,C14 put.others] othersUnchanged(db.kv, name)
+//@   ensures [C02,C03,C14,C18 put.readback] err == nil ==> (ver != 0 && hasVersion(db.kv, name, ver) && db.kv.secrets[name].Versions[ver] == bytes(value))
+//@   ensures [C02,C03,C14 put.create] (err == nil && !old(has(db.kv.secrets, name))) ==> (ver == 1 && db.kv.secrets[name].ActiveVersion == 1 && db.kv.secrets[name].LatestVersion == 1)
+//@   ensures [C02,C03,C14 put.dedupe] (err == nil && old(has(db.kv.secrets, name)) && old(dedupes(db.kv, name, value))) ==> (ver == old(db.kv.secrets[name].LatestVersion) && viewUnchanged(db.kv))
+//@   ensures [C02,C03,C14 put.fresh] (err == nil && old(has(db.kv.secrets, name)) && !old(dedupes(db.kv, name, value))) ==>
 //@        (ver == old(db.kv.secrets[name].LatestVersion) + 1 && db.kv.secrets[name].LatestVersion == ver && db.kv.secrets[name].ActiveVersion == old(db.kv.secrets[name].ActiveVersion))
 //@   ensures [C05 put.kek-unused] kekUses == old(kekUses)
 //@   at call put: assert [C14 put.locked] db.mu
@@ -330,8 +330,8 @@ package db
 //@   ensures [C06 activate.trail] auditLog == old(auditLog) || auditLog == snoc(old(auditLog), evC(caller, "activate", name, version, allows(caller.Permissions, "activate", name)))
 //@   ensures [C06 activate.failclosed] auditLog == old(auditLog) ==> (err != nil && noEffect(db))
 //@   ensures [C02,C14 activate.name-validation] (name == "" || hasPrefix(name, "_internal/")) ==> (err != nil && noEffect(db))
-//@   ensures [C02,C04,C14 activate.fail-nochange] err != nil ==> noEffect(db)
-//@   ensures [C02,C14 activate.others] othersUnchanged(db.kv, name)
+//@   ensures [C01,C02,C04,C06,C09,C14 activate.fail-nochange] err != nil ==> noEffect(db)
+//@   ensures [C01,C02,C06,C09,C14 activate.others] othersUnchanged(db.kv, name)
 //@   ensures [C02,C14 activate.ok] err == nil ==> (old(hasVersion(db.kv, name, version)) && version != 0 && db.kv.secrets[name].ActiveVersion == version &&
 //@        db.kv.secrets[name].LatestVersion == old(db.kv.secrets[name].LatestVersion) &&
 //@        (forall v api.SecretVersion :: has(db.kv.secrets[name].Versions, v) == old(has(db.kv.secrets[name].Versions, v)) &&
@@ -349,8 +349,8 @@ package db
 //@   ensures [C01,C06 deleteversion.deny-exact] (!allows(caller.Permissions, "delete", name) && auditLog != old(auditLog)) ==> auditLog == snoc(old(auditLog), evC(caller, "delete", name, version, false))
 //@   ensures [C06 deleteversion.trail] auditLog == old(auditLog) || auditLog == snoc(old(auditLog), evC(caller, "delete", name, version, allows(caller.Permissions, "delete", name)))
 //@   ensures [C06 deleteversion.failclosed] auditLog == old(auditLog) ==> (err != nil && noEffect(db))
-//@   ensures [C02,C04,C14 deleteversion.fail-nochange] err != nil ==> noEffect(db)
-//@   ensures [C02,C14 deleteversion.others] othersUnchanged(db.kv, name)
+//@   ensures [C01,C02,C04,C06,C09,C14 deleteversion.fail-nochange] err != nil ==> noEffect(db)
+//@   ensures [C01,C02,C06,C09,C14 deleteversion.others] othersUnchanged(db.kv, name)
 //@   ensures [C02,C14 deleteversion.ok] err == nil ==> (version != 0 && old(hasVersion(db.kv, name, version)) && version != old(db.kv.secrets[name].ActiveVersion) &&
 //@        !has(db.kv.secrets[name].Versions, version) && db.kv.secrets[name].ActiveVersion == old(db.kv.secrets[name].ActiveVersion) &&
 //@        db.kv.secrets[name].LatestVersion == old(db.kv.secrets[name].LatestVersion) &&
@@ -370,10 +370,10 @@ package db
 //@   ensures [C01,C06 delete.deny-exact] (!allows(caller.Permissions, "delete", name) && auditLog != old(auditLog)) ==> auditLog == snoc(old(auditLog), evC(caller, "delete", name, 0, false))
 //@   ensures [C06 delete.trail] auditLog == old(auditLog) || auditLog == snoc(old(auditLog), evC(caller, "delete", name, 0, allows(caller.Permissions, "delete", name)))
 //@   ensures [C06 delete.failclosed] auditLog == old(auditLog) ==> (err != nil && noEffect(db))
-//@   ensures [C02,C04,C14 delete.fail-nochange] err != nil ==> noEffect(db)
-//@   ensures [C02,C14 delete.others] othersUnchanged(db.kv, name)
+//@   ensures [C01,C02,C04,C06,C09,C14 delete.fail-nochange] err != nil ==> noEffect(db)
+//@   ensures [C01,C02,C06,C09,C14 delete.others] othersUnchanged(db.kv, name)
 //@   ensures [C02,C14 delete.ok] (err == nil && !hasPrefix(name, "_internal/")) ==> !has(db.kv.secrets, name)
-//@   ensures [C02,C08,C14 delete.absent-ok] (allows(caller.Permissions, "delete", name) && !hasPrefix(name, "_internal/") && !old(has(db.kv.secrets, name))) ==> ((err == nil || sinkErr(unwrap1(err))) && noEffect(db))
+//@   ensures [C01,C02,C06,C08,C09,C14 delete.absent-ok] (allows(caller.Permissions, "delete", name) && !hasPrefix(name, "_internal/") && !old(has(db.kv.secrets, name))) ==> ((err == nil || sinkErr(unwrap1(err))) && noEffect(db))
 //@   ensures [C05 delete.kek-unused] kekUses == old(kekUses)
 //@   at call deleteSecret: assert [C14 delete.locked] db.mu
 //@   at call deleteSecret: assert [C06 delete.logged-before-effect] auditLog == snoc(old(auditLog), evC(caller, "delete", name, 0, true))
